@@ -1092,10 +1092,14 @@ class RZILTransformer(Transformer):
         The hybrids effect and the assignment of the LocalVar are saved to a list and used later when
         the dependent effect is created.
 
-        If the hybrid is a sub-routine with a return type of void, this returns the hybrid.
+        If the hybrid is a sub-routine with a return type of void, this returns the hybrid
+        (sequenced after the hybrids its arguments depend on).
         """
         if hybrid.value_type.group & VTGroup.VOID:
-            return hybrid
+            # The arguments can contain hybrids as well (f(g(x)), f(i++)). Their effects have to be executed
+            # before the call, at the position of the call. Without a parent they would be executed
+            # at the start of the instruction.
+            return self.chk_hybrid_dep(hybrid)
 
         tmp_x_name = f"{self.il_ops_holder.hybrid_tmp_prefix}{self.il_ops_holder.hybrid_op_count}"
         self.il_ops_holder.hybrid_op_count += 1
